@@ -25,7 +25,7 @@ def wave(sid):
     m = re.search(r"-w(\d)", sid)
     return int(m.group(1)) if m else 1
 out.append("")
-for w in (1, 2, 3, 4):
+for w in (1, 2, 3, 4, 5):
     rs = [r for r in first if wave(r["id"]) == w]
     c = sum(1 for r in rs if r["verdict"].startswith("CAUGHT") and not r.get("harness_extended_before_first_evaluation"))
     p = sum(1 for r in rs if r.get("harness_extended_before_first_evaluation"))
